@@ -137,6 +137,7 @@ func runC07(ctx *Ctx) {
 	}
 	if !ctx.IsChild() {
 		ctx.Fork(Workers())
+		seqShard, seqShards = 0, 1 // the remaining (small) parts run on one goroutine: the code under test is never entered concurrently
 	} else {
 		l := r.Local()
 		for i := range dims {
